@@ -539,6 +539,10 @@ def refs_family(g, jnum=False, opaque_kinds=None):
         strict = [k for k in ('freshptr', 'ifacestruct') if k in opaque_kinds]   # equal only by reflect.DeepEqual; `==` differs or panics
         ks = ([r.choice(strict)] if strict else []) + ([r.choice(deep)] if deep else []) + r.sample(opaque_kinds, 1)
         pool = [('x', k) for k in ks] + [('n', 1.0), ('s', b'x')]
+    elif r.random() < 0.15:
+        # containers on both sides of path == path: empty array vs empty object, one-element containers of either kind
+        pool = [('a', []), ('o', []), ('a', [('n', 1.0)]), ('o', [(b'a', ('n', 1.0))]), ('n', 1.0), ('z',)]
+        r.shuffle(pool)
     else:
         nums = r.sample([0.0, 1.0, 2.0, 3.0, 5.0, 1.5, -1.0, 10.0], 3)
         pool = [(('j', fmt_num_literal(x).decode()) if jnum else ('n', x)) for x in nums] + \
@@ -713,3 +717,75 @@ def nested_arrays_family(g):
     if prefix[0][0] == 'rec':
         return doc, prefix
     return doc, prefix + [('union', [sub] + ([('idx', r.randint(-3, 3))] if r.random() < 0.2 else []))]
+
+
+def alias_variant(r, doc):
+    """the document with one of its non-empty sub-containers referenced a second time from another place (a
+    document assembled in Go code rather than decoded: the runner builds equal containers as ONE shared object
+    when the case's alias flag is set).  Returns the new document, or None when it has no such sub-container."""
+    subs = []
+
+    def walk(d, depth):
+        if d[0] == 'a':
+            for x in d[1]:
+                if x[0] in 'ao' and x[1]:
+                    subs.append(x)
+                walk(x, depth + 1)
+        elif d[0] == 'o':
+            for _, x in d[1]:
+                if x[0] in 'ao' and x[1]:
+                    subs.append(x)
+                walk(x, depth + 1)
+    walk(doc, 0)
+    if not subs or doc[0] not in 'ao':
+        return None
+    sub = r.choice(subs)
+    hosts = []
+
+    def hostwalk(d):
+        if d is sub:
+            return
+        if d[0] in 'ao':
+            hosts.append(d)
+            for x in (d[1] if d[0] == 'a' else [v for _, v in d[1]]):
+                hostwalk(x)
+    hostwalk(doc)
+    host = r.choice(hosts)
+
+    def rebuild(d):
+        if d is host:
+            if d[0] == 'a':
+                items = [rebuild(x) for x in d[1]]
+                items.insert(r.randint(0, len(items)), sub)
+                return ('a', items)
+            items = [(k, rebuild(v)) for k, v in d[1]]
+            if all(k != b'dup' for k, _ in items):
+                items.insert(r.randint(0, len(items)), (b'dup', sub))
+            return ('o', items)
+        if d[0] == 'a':
+            return ('a', [rebuild(x) for x in d[1]])
+        if d[0] == 'o':
+            return ('o', [(k, rebuild(v)) for k, v in d[1]])
+        return d
+    return rebuild(doc)
+
+
+def big_fanout_family(g):
+    """a terminal wildcard (or slice) over a long array that is NOT the first branch of a multi-valued prefix: results of
+    earlier branches are already in the result buffer when the long run of appends starts.  Sizes are heavy-tailed so
+    that some case is the largest its worker process has seen (a pooled buffer cannot hide a lost prefix)."""
+    r = g.r
+    size = r.choice([8, 9, 12, 17, 33, 64, 100, 300, 700, 1500, 3000])
+    first = [('s', b's%d' % k) for k in range(r.randint(1, 3))]
+    big = [('n', float(k)) for k in range(size)]
+    k = r.random()
+    if k < 0.4:
+        doc = ('a', [('a', first), ('a', big)] + ([('a', [('b', True)])] if r.random() < 0.5 else []))
+        steps = [('wild', r.choice(['dot', 'br'])), ('wild', r.choice(['dot', 'br']))]
+    elif k < 0.7:
+        doc = ('o', [(b'a', ('a', first)), (b'b', ('a', big))])
+        steps = [('wild', r.choice(['dot', 'br'])), ('wild', r.choice(['dot', 'br']))]
+    else:
+        doc = ('o', [(b'p', ('o', [(b'x', ('a', first))])), (b'q', ('o', [(b'x', ('a', big))]))])
+        steps = [('rec', ('name', b'x', 'dot')), ('wild', r.choice(['dot', 'br']))]
+    return doc, steps
